@@ -90,15 +90,26 @@ def load(repo='/repo', patterns=('./...',), out=None):
     prog = Program(doc)
     if not os.environ.get('VERIF_NO_ALIGN'):
         # function literals keep the ordinal they had when the contracts were written (see baseline.closure_renames)
-        from .baseline import closure_renames
+        from .baseline import closure_renames, function_renames
+        fren = function_renames(prog.funcs)
+        if fren:
+            import re
+            keys = sorted(fren, key=len, reverse=True)
+            pat = re.compile('(' + '|'.join(re.escape(k) for k in keys) + r')(?![A-Za-z0-9_])')
+            text = pat.sub(lambda m: fren[m.group(1)], text)
+            prog = Program(json.loads(text))
+            prog.function_renames = fren
         ren = closure_renames(prog.funcs)
         if ren:
             import re
             keys = sorted(ren, key=len, reverse=True)
             pat = re.compile('(' + '|'.join(re.escape(k) for k in keys) + r')(?![0-9])')
             text = pat.sub(lambda m: ren[m.group(1)], text)
+            fr_ = getattr(prog, 'function_renames', None)
             prog = Program(json.loads(text))
             prog.closure_renames = ren
+            if fr_:
+                prog.function_renames = fr_
     return prog
 
 
